@@ -819,6 +819,18 @@ class Walker:
             gfi = self._generator_cm(n.items[0], st)
             if gfi is not None:
                 return self._with_generator_cm(n, n.items[0], gfi, st)
+            ce = n.items[0].context_expr
+            if isinstance(ce, ast.Call) and not ce.keywords and n.items[0].optional_vars is None:
+                chain = dotted_chain(ce.func)
+                r = self.prog.resolve_dotted(self.mod, chain) if chain and chain[0] not in st.env else None
+                if r and r[0][0] == "ext" and (r[0][1] + ("." + ".".join(r[1]) if r[1] else "")) == "contextlib.suppress" and ce.args:
+                    # with suppress(E1, E2): body   ==   try: body / except (E1, E2): pass
+                    typ = ce.args[0] if len(ce.args) == 1 else ast.Tuple(elts=list(ce.args), ctx=ast.Load())
+                    h = ast.ExceptHandler(type=typ, name=None, body=[ast.Pass()])
+                    t = ast.Try(body=n.body, handlers=[h], orelse=[], finalbody=[])
+                    for x in (t, h, h.body[0], typ):
+                        ast.copy_location(x, ce)
+                    return self.s_Try(t, st)
         cur = [(st, "fall", None)]
         for item in n.items:
             nxt = []
@@ -914,9 +926,15 @@ class Walker:
             if it[1] == "set" and len(it[2]) > 1:
                 return None  # iteration order of a set display is not the source order
             return list(it[2])
-        if is_lit(it, "dict") and len(it[2]) <= self.UNROLL_MAX and untouched(it):
+        def distinct_keys(d):
+            # a display with keys that may be equal collapses them (the later entry wins): only
+            # displays whose keys are pairwise different constants have one entry per pair
+            ks = [k for k, _v in d[2]]
+            return all(is_const(k) for k in ks) and len({(k[1], k[2]) for k in ks}) == len(ks)
+
+        if is_lit(it, "dict") and len(it[2]) <= self.UNROLL_MAX and untouched(it) and distinct_keys(it):
             return [k for k, _v in it[2]]
-        if is_call(it, ("method:items", "method:keys", "method:values")) and len(it[2]) == 1 and is_lit(it[2][0], "dict") and len(it[2][0][2]) <= self.UNROLL_MAX and untouched(it[2][0]):
+        if is_call(it, ("method:items", "method:keys", "method:values")) and len(it[2]) == 1 and is_lit(it[2][0], "dict") and len(it[2][0][2]) <= self.UNROLL_MAX and untouched(it[2][0]) and distinct_keys(it[2][0]):
             d = it[2][0]
             if it[1] == "method:items":
                 return [("lit", "tuple", (k, v), None) for k, v in d[2]]
